@@ -116,6 +116,7 @@ package cmd
 //@ ghostfield any.tok string
 //@ func regattapb.RegisterKVServer
 //@   assumed
+//@   params r, srv
 //@   modifies nothing
 //@ func regattapb.RegisterClusterServer
 //@   assumed
@@ -144,6 +145,38 @@ package cmd
 
 // follower API server: maintenance (reset) service <- maintenance.token, read-only tables service <- tables.token
 //@ func follower$4
+//@   before regattapb.RegisterKVServer assert [C11.reg.kv+C16] typeIs(srv, *regattaserver.ForwardingKVServer) && asType(srv, *regattaserver.ForwardingKVServer) != nil && typeIs(asType(srv, *regattaserver.ForwardingKVServer).q, *storage.IndexNotificationQueue) && asType(asType(srv, *regattaserver.ForwardingKVServer).q, *storage.IndexNotificationQueue) == *nQueue && asType(srv, *regattaserver.ForwardingKVServer).KVServer.Storage != nil      // a follower serves the KV API through the forwarding server, waiting on THE queue the tables notify
 //@   before regattapb.RegisterTablesServer assert [C17.reg.tables+C16] typeIs(srv, *regattaserver.ReadonlyTablesServer) && asType(srv, *regattaserver.ReadonlyTablesServer).TablesServer.AuthFunc != nil && asType(srv, *regattaserver.ReadonlyTablesServer).TablesServer.AuthFunc.tok == cfgStr("tables.token")
 //@   before regattapb.RegisterMaintenanceServer assert [C17.reg.maintenance] typeIs(srv, *regattaserver.ResetServer) && asType(srv, *regattaserver.ResetServer).AuthFunc != nil && asType(srv, *regattaserver.ResetServer).AuthFunc.tok == cfgStr("maintenance.token")
+//@   modifies nothing
+
+// ---------------------------------------------------------------- the leader's replication services (C05, C06, C07)
+
+// the replication endpoint serves the log, metadata and snapshot services of THIS engine: the log
+// server reads through the engine's own log reader (the one whose cache compaction events invalidate)
+// and cuts batches at the configured send size
+//@ uninterp func cfgU64(key string) uint64
+//@ func viper.GetUint64
+//@   assumed
+//@   ensures result == cfgU64(key)
+//@   modifies nothing
+//@ func regattapb.RegisterLogServer
+//@   assumed
+//@   params r, srv
+//@   modifies nothing
+//@ func regattapb.RegisterMetadataServer
+//@   assumed
+//@   params r, srv
+//@   modifies nothing
+//@ func regattapb.RegisterSnapshotServer
+//@   assumed
+//@   params r, srv
+//@   modifies nothing
+//@ func leader$5
+//@   maypanic
+//@   requires *engine != nil && *logger != nil
+//@   before regattaserver.NewLogServer assert [C06.wire.logserver+C05] typeIs(ts, *storage.Engine) && asType(ts, *storage.Engine) == *engine && lr == (*engine).LogReader && maxMessageSize == cfgU64("replication.max-send-message-size-bytes")
+//@   before regattapb.RegisterLogServer assert [C06.reg.log] typeIs(srv, *regattaserver.LogServer) && asType(srv, *regattaserver.LogServer) != nil && asType(srv, *regattaserver.LogServer).LogReader == (*engine).LogReader
+//@   before regattapb.RegisterMetadataServer assert [C05.reg.metadata] typeIs(srv, *regattaserver.MetadataServer) && asType(srv, *regattaserver.MetadataServer) != nil && typeIs(asType(srv, *regattaserver.MetadataServer).Tables, *storage.Engine) && asType(asType(srv, *regattaserver.MetadataServer).Tables, *storage.Engine) == *engine
+//@   before regattapb.RegisterSnapshotServer assert [C07.reg.snapshot+C05] typeIs(srv, *regattaserver.SnapshotServer) && asType(srv, *regattaserver.SnapshotServer) != nil && typeIs(asType(srv, *regattaserver.SnapshotServer).Tables, *storage.Engine) && asType(asType(srv, *regattaserver.SnapshotServer).Tables, *storage.Engine) == *engine
 //@   modifies nothing
